@@ -137,11 +137,7 @@ func (req *Request) Write(w io.Writer) error {
 	ws.WriteString(" RTSP/1.0\r\n")
 
 	// 写 Header
-	if len(req.Body) > 0 {
-		req.Header.SetInt(FieldContentLength, len(req.Body))
-	} else {
-		delete(req.Header, FieldContentLength)
-	}
+	req.Header.setContentLength(len(req.Body))
 	if err := req.Header.Write(w); err != nil {
 		return err
 	}
